@@ -143,6 +143,9 @@ def run_all(ctx, focus):
         perms = list(itertools.permutations(keys))
         rngp = ctx.rng("perms-" + d["name"])
         rngp.shuffle(perms)
+        # the reversed order always takes part: later tags of every step finish before earlier ones
+        rev = tuple(reversed(keys))
+        perms = [rev] + [x for x in perms if x != rev]
         for pi, perm in enumerate(perms[:ctx.pick(3, 24)]):
             jobs.append((d, ctx.seed * 1000 + 500 + pi, [], k, [list(x) for x in perm]))
     with ProcessPoolExecutor(max_workers=min(12, os.cpu_count() or 4)) as ex:
